@@ -9,7 +9,8 @@ binary64 model `Rare.F64` – the computation exactly as the Go code performs it
 * `Samplef`: `samples++`, `mean += (val - oldMean) / float64(samples)`,
   `variance += (val - oldMean) * (val - mean)` – five IEEE operations, each correctly rounded once
   (`Numerical.samplef` of `Model/C07.lean` instantiated with `f64Ops`; amd64 does not fuse them);
-  `val < min` / `val > max` are IEEE comparisons (false for NaN) against the sentinels `±MaxFloat64`;
+  `val < min` / `val > max` are IEEE comparisons (false for NaN); `Min`/`Max` start at `+Inf` / `-Inf`
+  (fix bda1842; they were `±MaxFloat64`, a sentinel that is also below / above the sample `±Inf`);
 * `Variance()` = `variance / float64(samples-1)` for more than one sample, `StdDev()` = `math.Sqrt` of it;
 * `Analyze()`: `sort.Float64s` / `sort.Sort(sort.Reverse(sort.Float64Slice))`, whose order `goLess` puts NaN
   before every number and treats `-0`/`+0` as equal.  Go's sort is not stable, so the model takes ANY
@@ -23,11 +24,15 @@ open Rare
 /-- `math.MaxFloat64` = `0x7FEFFFFFFFFFFFFF`. -/
 def maxF64 : F64 := F64.ofSM false 9218868437227405311
 
+/-- `math.Inf(1)` / `math.Inf(-1)`: where `Min` / `Max` start. -/
+def posInf : F64 := F64.inf false
+def negInf : F64 := F64.inf true
+
 def f64Ops : NumOps F64 :=
   { add := F64.add, sub := F64.sub, mul := F64.mul, div := F64.div,
     ofNat := fun n => F64.ofInt (n : Int),
     lt := F64.lt, zero := F64.zero false,
-    maxVal := maxF64, negMaxVal := F64.neg maxF64 }
+    maxVal := posInf, negMaxVal := negInf }
 
 abbrev NumF := Numerical F64
 
